@@ -61,7 +61,8 @@ class C19(Check):
     def run_shard(self, shard, tier, seed, rec):
         scale = float(os.environ.get('ASN1V_SCALE', '1'))
         n = max(1, int((12 if tier == "quick" else 600) * scale))
-        prof = gen.Profile(max_types=4, max_depth=3, ext_implied=True, components_of_rate=25)
+        prof = gen.Profile(max_types=4, max_depth=3, ext_implied=True, components_of_rate=25, alias_chain_rate=60,
+                           same_defaults_rate=50)
 
         def body(case, rec):
             spec, probes, arrs = case
@@ -104,7 +105,7 @@ class C19(Check):
                         continue
                     for s in log:
                         rec.cls('step:' + s)
-                    if set(log) & {'split', 'inline', 'extract'}:
+                    if set(log) & {'split', 'inline', 'extract', 'merge'}:
                         rec.nt(text0, text1, codec)
                 if len(rec.samples) < 2 or rec.evaluations % 50 == 0:
                     rec.sample({'original': text0, 'arranged': text1, 'steps': log})
